@@ -4,6 +4,12 @@
 From Apd Require Import Generated.Consts Model.Base Model.NumDigits.
 Open Scope Z_scope.
 
+Section WithEst.
+(* the float64 digit estimate of NumDigits' big path is a parameter of the model (DESIGN.md section 3);
+   the executable instance is [go_est] *)
+Variable est : Z -> Z.
+Local Notation num_digits := (num_digits_with est).
+
 Definition cmpZ (a b : Z) : Z := match a ?= b with Lt => -1 | Eq => 0 | Gt => 1 end.
 
 Definition is_finite (d : dec) : bool := form_eqb (form_of d) Finite.
@@ -217,3 +223,5 @@ Definition dreduce (x : dec) : res (dec * Z) :=
   else
     do (c1, n) <- strip10 (S (Z.to_nat (bitlen (coeff x)))) (coeff x) 0;
     if n =? 0 then Ok (x, 0) else Ok (mkDec (form_of x) (dsign x =? -1) (exp x + n) c1, n).
+
+End WithEst.
